@@ -8,10 +8,12 @@
      wf_events_b d es  (SC1) a doc action never writes or creates a cell that has a pending calc delta, row ids
                        added are positive and distinct, no name created starts with '-';
                        (SC2) a calc change of a cell without a pending delta starts from the cell's value, and its
-                       row exists;  and the bundle contains no rollback, failed doc action or creation event. *)
+                       row exists;  rollbacks only as segments of record additions and their removals (see below);
+                       no failed doc action or creation event. *)
 From Coq Require Import ZArith List Bool.
 Import ListNotations.
 Require Import Grist.Model.StoredLog Grist.Proofs.StoredLog_proofs GristGen.StoredLog_gen.
+Require Import GristGen.StoredLogPy_gen Grist.Proofs.StoredLogPy_bridge.
 Open Scope Z_scope.
 
 (* Stage 1 (doc actions only): whenever DocActions accepts an action, TableDataSet accepts it too and both
@@ -24,34 +26,34 @@ Proof. intros td a d d' [Hnd _]. apply eng_tds_apply. exact Hnd. Qed.
    the document before it -- for every interleaving of doc actions (all 13 kinds, at any indirection level),
    calc changes, per-column flushes, prunes, and the final flush, including renames and removals of rows,
    columns and tables between a calc change and its flush. *)
-Theorem C02_stored_is_delta : forall td d es d' o,
-  wf_doc d -> wf_events_b td d es = true -> run_bundle td d es = Ok (d', o) ->
+Theorem C02_stored_is_delta : forall td rep d es d' o,
+  wf_doc d -> wf_events_b td rep d es = true -> run_bundle td rep d es = Ok (d', o) ->
   tds_apply_all td (o_stored o) d = Ok d'.
-Proof. intros td d es d' o H1 H2 H3. exact (proj1 (stored_is_delta td d es d' o H1 H2 H3)). Qed.
+Proof. intros td rep d es d' o H1 H2 H3. exact (proj1 (stored_is_delta rep td d es d' o H1 H2 H3)). Qed.
 
 (* Both inclusions of the property: nothing in the engine without a stored action, nothing stored that the
    engine did not do -- the replayed document has exactly the engine's tables, rows and cells. *)
-Corollary C02_same_tables_rows_cells : forall td d es d' o dr,
-  wf_doc d -> wf_events_b td d es = true -> run_bundle td d es = Ok (d', o) ->
+Corollary C02_same_tables_rows_cells : forall td rep d es d' o dr,
+  wf_doc d -> wf_events_b td rep d es = true -> run_bundle td rep d es = Ok (d', o) ->
   tds_apply_all td (o_stored o) d = Ok dr ->
   (forall t, amem str_eqb t dr = amem str_eqb t d') /\
   (forall t r, InRow dr t r <-> InRow d' t r) /\
   (forall t c r v, InCell dr t c r v <-> InCell d' t c r v).
 Proof.
-  intros td d es d' o dr H1 H2 H3 H4. rewrite (C02_stored_is_delta td d es d' o H1 H2 H3) in H4.
+  intros td rep d es d' o dr H1 H2 H3 H4. rewrite (C02_stored_is_delta td rep d es d' o H1 H2 H3) in H4.
   inversion H4; subst. repeat split; intros; assumption.
 Qed.
 
 (* Well-formedness is kept, so bundles compose. *)
-Theorem C02_wf_preserved : forall td d es d' o,
-  wf_doc d -> wf_events_b td d es = true -> run_bundle td d es = Ok (d', o) -> wf_doc d'.
-Proof. intros td d es d' o H1 H2 H3. exact (proj2 (stored_is_delta td d es d' o H1 H2 H3)). Qed.
+Theorem C02_wf_preserved : forall td rep d es d' o,
+  wf_doc d -> wf_events_b td rep d es = true -> run_bundle td rep d es = Ok (d', o) -> wf_doc d'.
+Proof. intros td rep d es d' o H1 H2 H3. exact (proj2 (stored_is_delta rep td d es d' o H1 H2 H3)). Qed.
 
 (* Whole histories, by induction over the bundles. *)
-Theorem C02_history : forall td bs d d' os,
-  wf_doc d -> wf_history_b td d bs = true -> run_history td d bs = Ok (d', os) ->
+Theorem C02_history : forall td rep bs d d' os,
+  wf_doc d -> wf_history_b td rep d bs = true -> run_history td rep d bs = Ok (d', os) ->
   tds_apply_all td (flat_map o_stored os) d = Ok d'.
-Proof. intros td bs d d' os H1 H2 H3. exact (proj1 (history_is_delta td bs d d' os H1 H2 H3)). Qed.
+Proof. intros td rep bs d d' os H1 H2 H3. exact (proj1 (history_is_delta rep td bs d d' os H1 H2 H3)). Qed.
 
 (* From document creation: InitNewDoc's creation actions (regenerated from schema.schema_create_actions())
    replayed into an empty TableDataSet give the metadata tables the engine starts with ... *)
@@ -63,20 +65,47 @@ Proof. apply wf_doc_b_ok. vm_compute. reflexivity. Qed.
 
 (* ... so the stored stream of every bundle since InitNewDoc, replayed from nothing, yields the engine's
    document. *)
-Theorem C02_history_from_InitNewDoc : forall bs d' os,
-  wf_history_b td_gen meta_doc bs = true -> run_history td_gen meta_doc bs = Ok (d', os) ->
+Theorem C02_history_from_InitNewDoc : forall rep bs d' os,
+  wf_history_b td_gen rep meta_doc bs = true -> run_history td_gen rep meta_doc bs = Ok (d', os) ->
   tds_apply_all td_gen (creation_actions ++ flat_map o_stored os) [] = Ok d'.
 Proof.
-  intros bs d' os H1 H2. rewrite tds_apply_all_app. rewrite C02_creation_builds_meta.
-  exact (C02_history td_gen bs meta_doc d' os C02_meta_wf H1 H2).
+  intros rep bs d' os H1 H2. rewrite tds_apply_all_app. rewrite C02_creation_builds_meta.
+  exact (C02_history td_gen rep bs meta_doc d' os C02_meta_wf H1 H2).
 Qed.
+
+(* ------------------------------------------------------------------------------------------------ *)
+(* The small pure pieces of action_summary.py are not hand-modelled: harness/sl2v.py translates them from /repo on
+   every run (GristGen.StoredLogPy_gen) and these theorems identify the translation with the functions the model
+   (and therefore every theorem above) is written with. *)
+Theorem C02_regenerated_names : forall n,
+  defunct_name_py n = defunct_name n /\ is_defunct_py n = is_defunct n /\ root_name_py n = root_name n.
+Proof. intro n. split; [apply defunct_name_bridge|split; [apply is_defunct_bridge|apply root_name_bridge]]. Qed.
+
+Theorem C02_regenerated_label_renames : forall m before after n,
+  add_rename_py m before after = add_rename before after m /\
+  is_created_py m n = lr_is_created m n /\ original_name_py m n = lr_original_name m n.
+Proof.
+  intros. split; [apply add_rename_bridge|split; [apply is_created_bridge|apply original_name_bridge]].
+Qed.
+
+Theorem C02_regenerated_row_filters : forall tables t rows,
+  filter_out_new_rows_py tables t rows = filter_out_new_rows tables t rows /\
+  filter_out_gone_rows_py tables t rows = filter_out_gone_rows tables t rows.
+Proof. intros. split; [apply filter_out_new_rows_bridge|apply filter_out_gone_rows_bridge]. Qed.
+
+(* the row selection of _changes_to_actions (full_row_ids, defunct, row_ids_after), assembled from the generated
+   pieces in the order the source has them (the connecting statements are compared as syntax by sl2v) *)
+Theorem C02_regenerated_row_selection : forall S t c dl,
+  full_row_ids_py dl = full_rows dl /\ defunct_py t c = (is_defunct t || is_defunct c) /\
+  changes_to_stored_py S t c dl = changes_to_stored false S t c dl.
+Proof. intros. split; [apply full_row_ids_bridge|split; [apply defunct_bridge|apply changes_to_stored_bridge]]. Qed.
 
 (* ------------------------------------------------------------------------------------------------ *)
 (* Without the side conditions the statement is false of the faithful model (and of the code: each trace
    below is the recorded trace of a real bundle, see harness/props/c02.py KNOWN_WITNESSES). *)
 
 Definition C02_unconditional : Prop := forall td d es d' o,
-  wf_doc d -> run_bundle td d es = Ok (d', o) -> tds_apply_all td (o_stored o) d = Ok d'.
+  wf_doc d -> run_bundle td false d es = Ok (d', o) -> tds_apply_all td (o_stored o) d = Ok d'.
 
 Definition tT : str := [84].  Definition cA : str := [65].  Definition cF : str := [70].
 Definition tyAny : str := [65; 110; 121].
@@ -94,8 +123,8 @@ Definition trace_readd : list event :=
     EDoc (RemoveRecord tT 3) 0 []; EDoc (AddRecord tT 3 [(cA, 10)]) 0 []; ECalc tT cF [(3, (0, 20))] ].
 
 Theorem C02_refuted_stale_delta_after_readd : exists d es d' o,
-  wf_doc d /\ run_bundle td0 d es = Ok (d', o) /\ tds_apply_all td0 (o_stored o) d <> Ok d' /\
-  wf_events_b td0 d es = false.
+  wf_doc d /\ run_bundle td0 false d es = Ok (d', o) /\ tds_apply_all td0 (o_stored o) d <> Ok d' /\
+  wf_events_b td0 false d es = false.
 Proof.
   exists doc1, trace_readd. eexists. eexists. split; [exact doc1_wf|]. split; [vm_compute; reflexivity|].
   split; [vm_compute; discriminate|vm_compute; reflexivity].
@@ -104,16 +133,16 @@ Qed.
 (* (b) docactions.BulkAddRecord does not reject a repeated row id (one row in the engine, two in the replay)
    nor row id 0 (no row in the engine, one in the replay). *)
 Theorem C02_refuted_repeated_row_id : exists d es d' o,
-  wf_doc d /\ run_bundle td0 d es = Ok (d', o) /\ tds_apply_all td0 (o_stored o) d <> Ok d' /\
-  wf_events_b td0 d es = false.
+  wf_doc d /\ run_bundle td0 false d es = Ok (d', o) /\ tds_apply_all td0 (o_stored o) d <> Ok d' /\
+  wf_events_b td0 false d es = false.
 Proof.
   exists doc1, [EDoc (BulkAddRecord tT [7; 7] [(cA, [1; 2])]) 0 []]. eexists. eexists.
   split; [exact doc1_wf|]. split; [vm_compute; reflexivity|]. split; [vm_compute; discriminate|vm_compute; reflexivity].
 Qed.
 
 Theorem C02_refuted_row_id_zero : exists d es d' o,
-  wf_doc d /\ run_bundle td0 d es = Ok (d', o) /\ tds_apply_all td0 (o_stored o) d <> Ok d' /\
-  wf_events_b td0 d es = false.
+  wf_doc d /\ run_bundle td0 false d es = Ok (d', o) /\ tds_apply_all td0 (o_stored o) d <> Ok d' /\
+  wf_events_b td0 false d es = false.
 Proof.
   exists doc1, [EDoc (AddRecord tT 0 [(cA, 1)]) 0 []]. eexists. eexists.
   split; [exact doc1_wf|]. split; [vm_compute; reflexivity|]. split; [vm_compute; discriminate|vm_compute; reflexivity].
@@ -125,17 +154,52 @@ Proof.
   apply H3. apply (H td0 d es d' o H1 H2).
 Qed.
 
-(* Not reached: bundles in which the engine rolls back part of its own work (Engine._undo_to_checkpoint after a
-   formula's side effects failed) trim `stored` back to the checkpoint; the statement then needs the undo
-   actions to restore the engine's document exactly, which is C01's theorem and not available here.  The
-   recorder reports any successful bundle that contains such an event (wf_events_b is false on it). *)
-Definition rollback_restores (td : str -> V) (d : doc) (es : list event) : Prop :=
-  forall es1 n es2 s1, es = es1 ++ ERollback n :: es2 -> run td (init_st d) es1 = Ok s1 ->
-    exists es0 s0, run td (init_st d) es0 = Ok s0 /\ s_stored s0 = firstn (Z.to_nat n) (s_stored s1) /\
-                   s_doc s0 = s_doc s1 /\ s_sum s0 = s_sum s1.
-Definition C02_with_rollback_statement : Prop := forall td d es d' o,
-  wf_doc d -> rollback_restores td d es -> run_bundle td d es = Ok (d', o) ->
+(* The repaired variant (notes/proposed_fixes/C02-stale-delta-after-readd.diff; `repaired := true` in the model):
+   the trace that refutes the unconditional statement is inside the side conditions and replays exactly. *)
+Example C02_repaired_readd :
+  wf_events_b td0 true doc1 trace_readd = true /\
+  match run_bundle td0 true doc1 trace_readd with
+  | Ok (d', o) => tds_apply_all td0 (o_stored o) doc1 = Ok d' /\
+                  o_stored o = [UpdateRecord tT 3 [(cA, 11)]; RemoveRecord tT 3; AddRecord tT 3 [(cA, 10)];
+                                UpdateRecord tT 3 [(cF, 20)]]
+  | Err _ => False
+  end.
+Proof. split; vm_compute; [reflexivity|split; reflexivity]. Qed.
+
+(* Rollbacks inside a successful bundle (a formula whose side effects are undone: Engine._recompute_one_cell takes a
+   checkpoint, the formula adds records through lookupOrAddDerived and then fails, _undo_to_checkpoint applies the
+   undo actions as doc actions and trims stored/direct).  C02_stored_is_delta covers them: wf_events_b accepts a
+   segment  ECheckpoint; record additions; their removals in reverse order; ERollback n  (n = the stored length at
+   the checkpoint; added rows fresh and without pending deltas; no calc/flush inside the segment).  The proof uses
+   the undo-exactness of that action pair: *)
+Theorem C02_undo_exact_add_remove : forall td t rs cols d d1,
+  wf_doc d -> rows_fresh rs = true -> colvals_ok rs cols = true ->
+  eng_bulk td (BulkAddRecord t rs cols) d = Ok d1 -> eng_bulk td (BulkRemoveRecord t rs) d1 = Ok d.
+Proof. exact add_remove_exact. Qed.
+
+(* the recorded trace shape of  AddColumn T F "D.lookupOrAddDerived(A=$A).id + (1/0 if $A == 2 else 0)" *)
+Example C02_rollback_segment :
+  let tD := [68] in
+  let d := [(tT, mkTable [1; 2] [(cA, mkCol tyAny [(1, 1); (2, 2)]); (cF, mkCol tyAny [(1, 0); (2, 0)])]);
+            (tD, mkTable [] [(cA, mkCol tyAny [])])] in
+  let es := [EDoc (AddRecord tD 1 [(cA, 1)]) 0 []; ECheckpoint; EDoc (AddRecord tD 2 [(cA, 2)]) 0 [];
+             EDoc (RemoveRecord tD 2) 0 []; ERollback 1; ECalc tT cF [(1, (0, 1)); (2, (0, 9))]] in
+  wf_events_b td0 false d es = true /\
+  match run_bundle td0 false d es with
+  | Ok (d', o) => tds_apply_all td0 (o_stored o) d = Ok d' /\
+                  o_stored o = [AddRecord tD 1 [(cA, 1)]; BulkUpdateRecord tT [1; 2] [(cF, [1; 9])]]
+  | Err _ => False
+  end.
+Proof. cbv zeta. split; vm_compute; [reflexivity|split; reflexivity]. Qed.
+
+(* Not reached: rolled-back segments that contain other doc actions than record additions (their undo actions are
+   not modelled here), or calc changes/flushes; wf_events_b is false on such a trace and the recorder reports it. *)
+Definition C02_general_rollback_statement : Prop := forall td rep d es d' o,
+  wf_doc d -> run_bundle td rep d es = Ok (d', o) ->
   (forall e, In e es -> match e with EDocFail _ _ | ECreate _ => False | _ => True end) ->
+  (forall es1 n es2 s1, es = es1 ++ ERollback n :: es2 -> run td rep (init_st d) es1 = Ok s1 ->
+     exists es0 s0, run td rep (init_st d) es0 = Ok s0 /\ s_stored s0 = firstn (Z.to_nat n) (s_stored s1) /\
+                    s_doc s0 = s_doc s1) ->
   tds_apply_all td (o_stored o) d = Ok d'.
 
 (* ------------------------------------------------------------------------------------------------ *)
@@ -148,8 +212,8 @@ Definition trace_ok : list event :=
     EDoc (RemoveColumn [85] cF) 0 [(4, (2, 0))] ].
 
 Example C02_nonvacuous :
-  wf_doc doc1 /\ wf_events_b td0 doc1 trace_ok = true /\
-  run_bundle td0 doc1 trace_ok =
+  wf_doc doc1 /\ wf_events_b td0 false doc1 trace_ok = true /\
+  run_bundle td0 false doc1 trace_ok =
     Ok ([([85], mkTable [4] [(cA, mkCol tyAny [(4, 1)]); ([72], mkCol tyAny [(4, 9)])])],
         mkOut [AddColumn tT [71] (Some tyAny); RenameColumn tT [71] [72]; AddRecord tT 4 [(cA, 1)];
                RemoveRecord tT 3; RenameTable tT [85]; RemoveColumn [85] cF; UpdateRecord [85] 4 [([72], 9)]]
